@@ -29,7 +29,7 @@ type lc struct {
 	seed uint64
 }
 
-func (x *lc) label() string { return x.e.vals[x.vi].label }
+func (x *lc) label() string { return x.e.values(x.seed)[x.vi].label }
 
 // at: the leaf context focused on catalogue value vi of the type (a scenario is one type; leaves loop over its
 // values, so that a defect of the type is one violating leaf and not one per value).
@@ -39,9 +39,20 @@ func (x *lc) at(vi int) *lc {
 	return &y
 }
 
-func (x *lc) values() []*lc {
+// faultValues: the hand-written values only. A value derived by changing one scalar field has the byte layout of
+// its base value, so cutting, corrupting or fragmenting it again adds nothing (and decoding parameter sets is dear).
+func (x *lc) faultValues() []*lc {
 	r := make([]*lc, len(x.e.vals))
 	for vi := range x.e.vals {
+		r[vi] = x.at(vi)
+	}
+	return r
+}
+
+func (x *lc) values() []*lc {
+	vs := x.e.values(x.seed)
+	r := make([]*lc, len(vs))
+	for vi := range vs {
 		r[vi] = x.at(vi)
 	}
 	return r
@@ -267,6 +278,10 @@ func judgeAgainst(e *entry, orig any, ref []byte, d decoder, recv any, n int64, 
 		}
 		return v
 	}
+	if eq && !seq && exportedScalarPath(path) {
+		// the type's own Equal does not look at this exported field; a reader of the decoded object does
+		eq, how = false, how+" says equal, but it ignores an exported field that differs"
+	}
 	if !eq {
 		return differs(verdict{kind: "not-equal", msg: "decoded object differs from the original (" + how + ")"})
 	}
@@ -399,4 +414,22 @@ func availDecoders(o *cached) []decoder {
 		}
 	}
 	return r
+}
+
+// exportedScalarPath: the first structural difference is a scalar reached through exported struct fields only
+// (no slices, maps or unexported state on the way): plain data a user of the object reads directly.
+func exportedScalarPath(p []step) bool {
+	if len(p) == 0 {
+		return false
+	}
+	for _, st := range p {
+		if st.kind != 'f' || st.name == "" || st.name[0] < 'A' || st.name[0] > 'Z' {
+			return false
+		}
+	}
+	t := p[len(p)-1].t
+	if t.Kind() == reflect.Ptr {
+		t = t.Elem()
+	}
+	return basicKind(t.Kind())
 }
